@@ -21,7 +21,9 @@ LEVEL_TEXT = (
     "rows; all other merge/elision families are sampled (thousands of generated pairs per run) and compared with an "
     "independent evaluator and the iteration engine (incl. selections mixing a condition with constant-foldable "
     "operands, and a guarding selection followed by one that is only defined on the guarded rows - floor division by "
-    "the guarded column).  No absence claim beyond those bounds."
+    "the guarded column).  Two fixed probes: a user-defined non-idempotent Reordering next to every built-in operation "
+    "and next to itself (never merged, never dropped); equal pairs of selections / sorts whose function is restricted to "
+    "a different kind of engine, merged in one engine after the other.  No absence claim beyond those bounds."
 )
 LEVEL_NOTE = "trusts: the reference evaluator (vf/core/prog.py), decoding of library operations through public dataclass fields, Hypothesis"
 RULE = (
